@@ -145,6 +145,19 @@ def check(chk):
     if not resM.ok:
         raise C.Undecided("MutexOverSema: Go's Mutex over the semaphore contract violates %s (spec defect)" % resM.violation)
 
+    # the other sync types Go builds on the same contracts (llgo compiles them unchanged): design-level, must hold
+    others = [("RWMutexOverSema", {"NThreads": 3, "Rounds": 2 if thorough else 1}, ["MutualExclusion", "CleanEnd", "NoLostWaiter", "Sane"]),
+              ("WaitGroupOverSema", {"NWorkers": 3 if thorough else 2, "NWaiters": 2}, ["WaitAfterZero", "CleanEnd", "NoLostWaiter"]),
+              ("OnceOverMutex", {"NThreads": 3}, ["ExactlyOnce", "BeforeAnyReturn", "NoLostWaiter"])]
+    for mod, consts, invs in others:
+        ocfg = os.path.join(rd, mod + "_run.cfg")
+        C.write_cfg(ocfg, constants=dict(consts, defaultInitValue=0), invariants=invs)
+        resO = C.tlc(SPEC, mod, ocfg, rd, timeout=3000, parse_json=False)
+        chk.add_tlc(resO, mod)
+        chk.cov[mod] = {"ok": resO.ok, "violation": resO.violation, "states": resO.distinct, "constants": consts}
+        if not resO.ok:
+            raise C.Undecided("%s: Go's algorithm over the semaphore contract violates %s (spec defect)" % (mod, resO.violation))
+
     binpath = sched.build(rd, "semasched")
     shards = C.NCPU
     runs = [("dfs", c10.run_sched(binpath, scen_path, os.path.join(rd, "dfs"), "dfs", 80000 if thorough else 8000, -1, 0, sd,
